@@ -241,3 +241,12 @@ func (f *fileStore) VerifScanLeft(root uint64) (keys []uint32, err error) {
 	})
 	return keys, err
 }
+
+// VerifKill is process death for this store: the flusher goroutine (if it is
+// still running) is stopped and the file is closed; nothing is flushed.
+func (f *fileStore) VerifKill(stopFlusher bool) {
+	if stopFlusher && f.autoFlushCache {
+		f.tickerDone <- true
+	}
+	f.file.Close()
+}
